@@ -4,7 +4,7 @@ Everything is regenerated from /repo's current working tree on every run: the ha
 /verif/harness/incrate are compiled *inside* the crate by Kani (rustc MIR -> CBMC goto program),
 CBMC unrolls to the stated bounds and CaDiCaL decides.  See DESIGN.md.
 """
-import json, os, re, subprocess, sys, time, shutil
+import json, os, re, subprocess, sys, time, shutil, hashlib
 
 VERIF = os.path.dirname(os.path.dirname(os.path.abspath(__file__)))
 REPO = os.environ.get("VERIF_REPO", "/repo")
@@ -267,11 +267,28 @@ def parse_playback(out):
 # ------------------------------------------------------------------------------------------------
 # native replay
 # ------------------------------------------------------------------------------------------------
+def replay_crate():
+    """The replay crate's manifest names the repository by path; generate it for the tree being checked."""
+    if REPO == "/repo":
+        d = os.path.join(VERIF, "replay")
+    else:
+        d = os.path.join(BUILD, "replay_" + hashlib.sha1(REPO.encode()).hexdigest()[:8])
+        os.makedirs(os.path.join(d, "src"), exist_ok=True)
+        man = open(os.path.join(VERIF, "replay", "Cargo.toml")).read().replace('path = "/repo"', f'path = "{REPO}"')
+        open(os.path.join(d, "Cargo.toml"), "w").write(man)
+        shutil.copy(os.path.join(VERIF, "replay", "src", "main.rs"), os.path.join(d, "src", "main.rs"))
+    lock = os.path.join(d, "Cargo.lock")
+    if not os.path.exists(lock):
+        shutil.copy(os.path.join(REPO, "Cargo.lock"), lock)
+    return d
+
+
 def build_replay(pid, incrate, profile):
     env = base_env(pid, incrate)
     env["RUSTFLAGS"] += " --cfg prometheus_verif_replay"
-    cmd = ["cargo", "build", "--offline", "--manifest-path", os.path.join(VERIF, "replay", "Cargo.toml"),
-           "--target-dir", os.path.join(BUILD, "replay_target")]
+    d = replay_crate()
+    tdir = os.path.join(BUILD, "replay_target" + os.environ.get("VERIF_TARGET_SUFFIX", ""))
+    cmd = ["cargo", "build", "--offline", "--manifest-path", os.path.join(d, "Cargo.toml"), "--target-dir", tdir]
     p = PROPS[pid]
     if p.get("features", "plain") != "plain":
         cmd += ["--features", "protobuf"]
@@ -280,7 +297,7 @@ def build_replay(pid, incrate, profile):
     rc, out, _ = sh(cmd, env=env, timeout=900)
     if rc != 0:
         return None, out
-    return os.path.join(BUILD, "replay_target", profile if profile == "release" else "debug", "vreplay"), out
+    return os.path.join(tdir, profile if profile == "release" else "debug", "vreplay"), out
 
 
 def native_replay(pid, incrate, harness, tape, rdir):
@@ -405,9 +422,12 @@ def run_property(pid, tier, only=None, seed=0, jobs=None):
             continue
         full = meta[n]["module"] + "::" + n
         cap = p["harnesses"][n].get("cap", 600)
+        # trace generation is usually a little slower than the verification run; when it is much slower it
+        # is about to exhaust memory, and the native search below takes over
+        pb_cap = max(180, 3 * (r["time"] or 60) + 60)
         extra = list(p["harnesses"][n].get("flags", [])) + ["--harness", full, "--exact", "-Z", "concrete-playback", "--concrete-playback=print",
-                 "--harness-timeout", f"{cap * 2}s", "--output-format", "terse"]
-        rc, out, dt = sh(kani_cmd(pid, extra), env=env, cwd=REPO, timeout=cap * 2 + 900, mem_gb=mem)
+                 "--harness-timeout", f"{int(pb_cap)}s", "--output-format", "terse"]
+        rc, out, dt = sh(kani_cmd(pid, extra), env=env, cwd=REPO, timeout=pb_cap + 600, mem_gb=mem)
         open(os.path.join(BUILD, "logs", f"{pid}_{n}_playback.log"), "w").write(out)
         tests = parse_playback(out)
         wanted = [d for d, _ in r["failed"]]
@@ -423,6 +443,24 @@ def run_property(pid, tier, only=None, seed=0, jobs=None):
                 break
             else:
                 log(f"[{pid}]    counterexample for '{t['desc']}' did not reproduce natively ({ok}): {json.dumps(details)[:600]}")
+        if confirmed is None and not tests:
+            # Kani's trace generation did not deliver values (it can exhaust memory on larger harnesses).
+            # The solver's verdict stands; look for a concrete witness by a directed native search.
+            log(f"[{pid}] {n}: no concrete values from Kani's playback (trace generation failed); searching a witness natively")
+            exe, bout = build_replay(pid, incrate, "debug")
+            if exe:
+                os.makedirs(rdir, exist_ok=True)
+                tpath = os.path.join(rdir, n + ".search.tape.json")
+                for d, _ in r["failed"][:3]:
+                    rc2, sout, _ = sh([exe, "--search", n, str(p["harnesses"][n].get("search_trials", 300000)), str(seed + 1), tpath, d], timeout=600)
+                    log(f"[{pid}]    {sout.strip()[-300:]}")
+                    if rc2 == 1:
+                        tape = json.load(open(tpath))
+                        ok, details = native_replay(pid, incrate, n, tape, rdir)
+                        r["replay"].append(dict(check=d, values="found by native search", reproduced=ok))
+                        if ok:
+                            confirmed = (dict(desc=d, values=["(native search) " + sout.strip()[-200:]], tape=tape), details)
+                            break
         if confirmed is None:
             log(f"[{pid}] {n}: counterexample could NOT be reproduced natively -> encoding problem, inconclusive")
             r["verdict"], r["note"] = "inconclusive", "counterexample does not reproduce natively"
@@ -441,13 +479,40 @@ def run_property(pid, tier, only=None, seed=0, jobs=None):
             log(f"VIOLATION property={pid} replay={rpath}")
             violations.append(rpath)
             exit_code = 1 if exit_code != 2 else exit_code
+    extra_ev = None
+    if p.get("e5") and not only:
+        ecode, extra_ev, eviol = run_e5(pid)
+        if ecode == 1:
+            violations.append(eviol)
+        elif ecode == 2:
+            exit_code = max(exit_code, 2)
     if violations:
         exit_code = 1
-    write_evidence(pid, tier, seed, meta, plan, results, t_start, violations, unlisted=unlisted)
+    write_evidence(pid, tier, seed, meta, plan, results, t_start, violations, unlisted=unlisted, extra=extra_ev)
     return exit_code, results
 
 
-def write_evidence(pid, tier, seed, meta, plan, results, t_start, violations, note="", unlisted=()):
+def run_e5(pid):
+    """E5: release/acquire hand-off litmus in z3 from the MIR of /repo (see smt/e5_handoff.py)."""
+    sys.path.insert(0, os.path.join(VERIF, "smt"))
+    import e5_handoff
+    code, out = e5_handoff.main([])
+    viol = None
+    if code == 1:
+        rdir = os.path.join(VERIF, "replays", pid)
+        os.makedirs(rdir, exist_ok=True)
+        viol = os.path.join(rdir, "e5_handoff.witness.json")
+        json.dump(out, open(viol, "w"), indent=1, default=str)
+        log(f"[{pid}] E5: the solver found an execution allowed by the release/acquire axioms in which the collector drains a shard before an observation it counted landed (execution graph in the witness file; weak-memory executions cannot be forced natively)")
+        log(f"VIOLATION property={pid} replay={viol}")
+    elif code == 2:
+        log(f"[{pid}] E5 inconclusive")
+    else:
+        log(f"[{pid}] E5: hand-off queries unsat (safe), non-vacuity twins sat")
+    return code, out, viol
+
+
+def write_evidence(pid, tier, seed, meta, plan, results, t_start, violations, note="", unlisted=(), extra=None):
     p = PROPS[pid]
     samples = []
     obligations = discharged = 0
@@ -496,16 +561,18 @@ def write_evidence(pid, tier, seed, meta, plan, results, t_start, violations, no
             outside_claim=p.get("outside", ""),
             solver_time_s=round(solver_s, 1),
             harnesses_not_in_plan=sorted(unlisted),
+            e5_release_acquire_litmus=(dict(results=extra.get("results"), atomic_events_extracted_from_mir=extra.get("events"), mir_functions_parsed=extra.get("functions")) if extra else None),
             exhaustive=False,
         ),
         assumptions=p.get("assumptions", []),
         wall_s=round(time.time() - t_start, 1),
         violations=len(violations),
     )
-    os.makedirs(os.path.join(VERIF, "evidence"), exist_ok=True)
-    tmp = os.path.join(VERIF, "evidence", pid + ".json.tmp")
+    evdir = os.path.join(VERIF, "evidence") if REPO == "/repo" else os.path.join(BUILD, "evidence_other_tree")
+    os.makedirs(evdir, exist_ok=True)
+    tmp = os.path.join(evdir, pid + ".json.tmp")
     json.dump(ev, open(tmp, "w"), indent=1)
-    os.replace(tmp, os.path.join(VERIF, "evidence", pid + ".json"))
+    os.replace(tmp, os.path.join(evdir, pid + ".json"))
 
 
 def do_replay(pid, path):
